@@ -107,6 +107,58 @@ func verifC19Algebra(maxLen int) {
 	vsymReach("C19_algebra")
 }
 
+// C19-O2b: nested predicates: the verdict of a tree of three label matchers is
+// the Boolean combination of the leaves' own verdicts, whatever the nesting
+// (an `and` inside an `or`, an `or` inside an `and`, with and without
+// parentheses nodes); leaves may test the same label.
+func verifC19Nested(maxLen int) {
+	line := vsymString("line", 1)
+	set := verifSetAB("", maxLen)
+	ops := []logql.BinOp{logql.OpEq, logql.OpNotEq, logql.OpRe, logql.OpNotRe}
+	mk := func(tag string) (bool, logql.LabelPredicate) {
+		op := ops[vsymChoice(tag+"op", 2)]
+		v := vsymString(tag+"v", maxLen)
+		name := []string{"a", "b"}[vsymChoice(tag+"label", 2)]
+		m := &logql.LabelMatcher{Label: logql.Label(name), Op: op, Value: v, Re: verifAnyRe}
+		_, k := verifLabelFilter(name, op, v).Process(1, line, set)
+		return k, m
+	}
+	kf, fp := mk("f")
+	kg, gp := mk("g")
+	kh, hp := mk("h")
+	paren := vsymBool("paren")
+	wrap := func(p logql.LabelPredicate) logql.LabelPredicate {
+		if paren {
+			return &logql.LabelPredicateParen{X: p}
+		}
+		return p
+	}
+	var tree logql.LabelPredicate
+	var want bool
+	switch vsymChoice("shape", 4) {
+	case 0:
+		tree = &logql.LabelPredicateBinOp{Left: fp, Op: logql.OpOr, Right: wrap(&logql.LabelPredicateBinOp{Left: gp, Op: logql.OpAnd, Right: hp})}
+		want = vsymOr(kf, vsymAnd(kg, kh))
+	case 1:
+		tree = &logql.LabelPredicateBinOp{Left: wrap(&logql.LabelPredicateBinOp{Left: fp, Op: logql.OpAnd, Right: gp}), Op: logql.OpOr, Right: hp}
+		want = vsymOr(vsymAnd(kf, kg), kh)
+	case 2:
+		tree = &logql.LabelPredicateBinOp{Left: fp, Op: logql.OpAnd, Right: wrap(&logql.LabelPredicateBinOp{Left: gp, Op: logql.OpOr, Right: hp})}
+		want = vsymAnd(kf, vsymOr(kg, kh))
+	default:
+		tree = &logql.LabelPredicateBinOp{Left: wrap(&logql.LabelPredicateBinOp{Left: fp, Op: logql.OpOr, Right: gp}), Op: logql.OpOr, Right: hp}
+		want = vsymOr(vsymOr(kf, kg), kh)
+	}
+	proc, err := buildLabelPredicate(tree)
+	vsymAssert(err == nil, "a nested predicate builds")
+	l, k := proc.Process(1, line, set)
+	vsymAssert(k == want, "a nested predicate selects the Boolean combination of what its leaves select (or = union, and = intersection, at every level)")
+	vsymAssert(!k || l == line, "kept lines are unchanged")
+	vsymReach("C19_nested")
+}
+
+func VerifHarness_C19_Nested_1() { verifC19Nested(1) }
+
 func VerifHarness_C19_Algebra_1() { verifC19Algebra(1) }
 func VerifHarness_C19_Algebra_2() { verifC19Algebra(2) }
 
